@@ -74,45 +74,54 @@ inductive MRes where
 
 def footerSize (version : Nat) : Nat := if version = 0 then 12 else 20
 
+/-- SEQ_MEMBER_FOOTER, entered after the LZMA1 stream ended with verdict `r`; `r3` = the input after the stream,
+    `v` = version byte, `inpLen` = bytes available from the member's start. -/
+def memberFooter (cfg : Cfg) (ev : List Ret) (v : Nat) (r : PRes) (r3 : List UInt8) (inpLen : Nat) : MRes :=
+  let fs := footerSize v
+  if r3.length < fs then
+    .done { ret := .ok, out := r.out, consumed := inpLen, events := ev }
+  else
+    let total := 6 + r.consumed + fs
+    if !cfg.ignoreCheck && crc32 r.out != leNat (r3.take 4) then
+      .done { ret := .dataError, out := r.out, consumed := total, events := ev }
+    else if r.out.length != leNat ((r3.drop 4).take 8) then
+      .done { ret := .dataError, out := r.out, consumed := total, events := ev }
+    else if v > 0 && total != leNat ((r3.drop 12).take 8) then
+      .done { ret := .dataError, out := r.out, consumed := total, events := ev }
+    else if !cfg.concatenated then
+      .done { ret := .streamEnd, out := r.out, consumed := total, events := ev }
+    else .next r.out total ev
+
+/-- SEQ_DICT_SIZE … SEQ_LZMA_STREAM: `c` = dictionary size byte, `r2` = the input after it -/
+def memberBody (P : Payload) (cfg : Cfg) (ev : List Ret) (v : Nat) (c : UInt8) (r2 : List UInt8) (inpLen : Nat) : MRes :=
+  match dictSizeOfCode c.toNat with
+  | none => .done { ret := .dataError, out := [], consumed := 6, events := ev }
+  | some ds =>
+    if cfg.memK + ds > effMemlimit cfg.memlimit then
+      .done { ret := .memlimitError, out := [], consumed := 6, events := ev, mem := cfg.memK + ds }
+    else
+      let r := P (lzipOpts ds) r2
+      if r.ret ≠ .streamEnd then
+        .done { ret := r.ret, out := r.out, consumed := 6 + r.consumed, events := ev }
+      else memberFooter cfg ev v r (r2.drop r.consumed) inpLen
+
+/-- SEQ_VERSION onwards: `r0` = the input after the four magic bytes -/
+def memberHeader (P : Payload) (cfg : Cfg) (r0 : List UInt8) (inpLen : Nat) : MRes :=
+  match r0 with
+  | [] => .done (needMore 4)
+  | v :: r1 =>
+    if v.toNat > 1 then .done (fail .optionsError 5)
+    else
+      let ev : List Ret := if cfg.tellAnyCheck then [.getCheck] else []
+      match r1 with
+      | [] => .done { ret := .ok, out := [], consumed := 5, events := ev }
+      | c :: r2 => memberBody P cfg ev v.toNat c r2 inpLen
+
 def lzipMember (P : Payload) (cfg : Cfg) (first : Bool) (inp : List UInt8) : MRes :=
   match idString magic inp 0 with
   | .exhausted n => .done { ret := if !first && cfg.finish then .streamEnd else .ok, out := [], consumed := n }
   | .mismatch n => .done { ret := if !first then .streamEnd else .formatError, out := [], consumed := n }
-  | .matched r0 =>
-    match r0 with
-    | [] => .done (needMore 4)
-    | v :: r1 =>
-      if v.toNat > 1 then .done (fail .optionsError 5)
-      else
-        let ev : List Ret := if cfg.tellAnyCheck then [.getCheck] else []
-        match r1 with
-        | [] => .done { ret := .ok, out := [], consumed := 5, events := ev }
-        | c :: r2 =>
-          match dictSizeOfCode c.toNat with
-          | none => .done { ret := .dataError, out := [], consumed := 6, events := ev }
-          | some ds =>
-            if cfg.memK + ds > effMemlimit cfg.memlimit then
-              .done { ret := .memlimitError, out := [], consumed := 6, events := ev, mem := cfg.memK + ds }
-            else
-              let r := P (lzipOpts ds) r2
-              if r.ret ≠ .streamEnd then
-                .done { ret := r.ret, out := r.out, consumed := 6 + r.consumed, events := ev }
-              else
-                let fs := footerSize v.toNat
-                let r3 := r2.drop r.consumed
-                if r3.length < fs then
-                  .done { ret := .ok, out := r.out, consumed := inp.length, events := ev }
-                else
-                  let total := 6 + r.consumed + fs
-                  if !cfg.ignoreCheck && crc32 r.out != leNat (r3.take 4) then
-                    .done { ret := .dataError, out := r.out, consumed := total, events := ev }
-                  else if r.out.length != leNat ((r3.drop 4).take 8) then
-                    .done { ret := .dataError, out := r.out, consumed := total, events := ev }
-                  else if v.toNat > 0 && total != leNat ((r3.drop 12).take 8) then
-                    .done { ret := .dataError, out := r.out, consumed := total, events := ev }
-                  else if !cfg.concatenated then
-                    .done { ret := .streamEnd, out := r.out, consumed := total, events := ev }
-                  else .next r.out total ev
+  | .matched r0 => memberHeader P cfg r0 inp.length
 
 /-- prefix the contribution of the members already decoded -/
 def prepend (o : List UInt8) (c : Nat) (ev : List Ret) (r : DRes) : DRes :=
